@@ -38,6 +38,15 @@ def gen_cases(rng, maxl, n_extra):
         kind = rng.choice(c01.KINDS)
         cases.append(dict(maxLB=maxl, maxLU=maxl, ecp=pl.rand_ecp(rng, maxl, C, per_l=1), A=pl.rand_shell(rng, LA, pl.place(rng, C, kind[0])),
                           B=pl.rand_shell(rng, LB, pl.place(rng, C, kind[1])), kind=list(kind)))
+    # blocks that are tiny in absolute terms (both shells several bohr out): the property's tolerance is relative to the block,
+    # so absolute cut-offs inside one of the two code paths show here and nowhere else
+    for _ in range(n_extra):
+        LA, LB = rng.randint(0, 2), rng.randint(0, 2)
+        C = [rng.uniform(-1, 1) for _ in range(3)]
+        U = pl.rand_ecp(rng, rng.randint(1, 4), C, per_l=1, lo=0.3, hi=3.0)
+        A = pl.rand_shell(rng, LA, pl.place(rng, C, "general", 4.5, 9.0), nprim=1, lo=0.4, hi=2.5)
+        B = pl.rand_shell(rng, LB, pl.place(rng, C, "general", 4.5, 9.0), nprim=1, lo=0.4, hi=2.5)
+        cases.append(dict(maxLB=maxl, maxLU=maxl, ecp=U, A=A, B=B, kind=["far", "far"]))
     return cases
 
 
@@ -83,7 +92,7 @@ def main(ctx, cases=None):
     runs = pl.run_real(drv, cases)
     corr_bad = []
     if os.path.exists(core.DRIVER):
-        sub = runs if not quick else [r for i, r in enumerate(runs) if r.case["A"]["l"] <= 1 and r.case["B"]["l"] <= 1 or i % 3 == 0]
+        sub = runs if not quick else [r for i, r in enumerate(runs) if r.case["A"]["l"] <= 1 and r.case["B"]["l"] <= 1 or i % 3 == 0 or r.case.get("kind") == ["far", "far"]]
         pl.run_model(sub, ("code",))
         for r in sub:
             if not pl.same_bits(r.bits, r.model.get("code")):
